@@ -192,6 +192,23 @@ def _layout_case(case, rng):
     else:
         case.count("terminal_checks", 0)
         case.count("own_goal_states", 0)
+    if w * h <= 9 and rng.random() < 0.5:
+        # downstream use: the states the game itself lists as reachable (state_list is what planners and array builders walk)
+        # are states the rules allow - no two agents in one non-goal cell, nobody inside an obstacle or off the grid
+        sl = case.call("state_list", lambda: list(gg.state_list))
+        case.count("state_lists_checked")
+        if sl is not case.FAIL:
+            badl = []
+            for st_ in sl:
+                if gg.is_terminal(st_):
+                    continue
+                q0, q1 = (st_["A0"]["x"], st_["A0"]["y"]), (st_["A1"]["x"], st_["A1"]["y"])
+                if (q0 == q1 and q0 not in goals) or q0 in obstacles or q1 in obstacles or not all(0 <= q[0] < w and 0 <= q[1] < h for q in (q0, q1)):
+                    badl.append((q0, q1))
+            case.check(not badl, "state-list-contains-a-state-the-rules-forbid", lambda: f"{badl[:3]!r} layout=\n{s}", **facts)
+            if len(seen) <= limit and not frontier:
+                extra_ = [key(st_) for st_ in sl if not gg.is_terminal(st_) and key(st_) not in seen]
+                case.check(not extra_, "state-list-contains-states-not-reachable-with-positive-probability", lambda: f"{extra_[:3]!r} layout=\n{s}", **facts)
     if rng.random() < 0.3:
         # a game written by SUBCLASSING: the game is also over as soon as A0 stands on a flag cell (here: where it starts), said
         # through the public is_absorbing - the hook the class's own dynamics consult
@@ -414,7 +431,7 @@ def _table_case(case, rng):
         rows_a = [{"j": {"k": i}} for i in range(kk)] + [{"j": {"k": 90}}]
         rows_b = [({"j": {"k": i}, "z": i % 2} if extra else {"j": {"k": i}}) for i in range(kk)] + \
                  [({"j": {"k": 91}, "z": 0} if extra else {"j": {"k": 91}})]
-        D = rng.choice([-460.0, -300.0, -700.0])
+        D = rng.choice([-460.0, -300.0, -700.0, -800.0, -1000.0, -5000.0])      # (exp(-745) is the smallest float: beyond it only the logits carry the row)
         tA = Pr(rows_a, logits=[math.log(v) + D for v in va] + [0.0])
         tB = Pr(rows_b, logits=[math.log(v) + D for v in vb] + [0.0])
         pj = case.call("product(deep join)", lambda: tA & tB, facts=dict(depth=D))
